@@ -626,7 +626,9 @@ class Retrieve:
         # salt. We will then validate those. If validation is
         # successful, we will assemble the results into plaintext.
         ds = []
-        for reader in self._active_readers:
+        # (iterate over a copy: a failure that is delivered synchronously
+        # removes its reader from self._active_readers in _mark_bad_share)
+        for reader in list(self._active_readers):
             started = time.time()
             d1 = reader.get_block_and_salt(segnum)
             d2,d3 = self._get_needed_hashes(reader, segnum)
